@@ -106,7 +106,7 @@ PROPS = {
 }
 
 PROPS["C01"] = {
-  "units": ["egress", "enc", "framer", "batch", "hsout", "drivers", "dealerq"],
+  "units": ["egress", "enc", "framer", "batch", "hsout", "drivers", "dealerq", "dealerproc"],
   "kani_quick": [], "kani_thorough": [],
   "claim": "Session-local byte-stream conservation, proved unbounded on the verbatim functions: EgressBuffer (push appends at the tail, advance(n) drops exactly n bytes from the front for every n and every chunking, "
            "push_priority inserts only after the partially written head chunk, counters follow the view) and the batch encoders (frame_contiguous / frame_vectored / NullFramer wrappers emit exactly enc_batches of the frames in batch order: "
@@ -116,8 +116,9 @@ PROPS["C01"] = {
            "(the byte stream belongs to the egress buffer: a direct write would land inside a partially written frame), and every decoded message is appended to the ingress queue in order; "
            "the two hand-written futures of the session (unit drivers): EgressDriver::poll keeps `bytes accepted by the socket ++ bytes pending` constant at EVERY exit (Ready, Pending, error: a partial write advances the buffer by exactly what was taken) and "
            "terminates; IngressDriver::poll removes batches only from the front, in order, and an in-flight asynchronous send always carries the batch that is still at the front (popped only when that send completes); DEALER's two send paths (unit dealerq: send_logical_message and the synchronous fast path try_send_sync) hand a message to a peer directly only when the pending queue is empty and the queue processor holds nothing in flight, "
-           "otherwise it is appended at the back of the queue (FIFO). End-to-end delivery across tasks, pipes and the kernel is a whole-system property and is not claimed.",
-  "level_note": "Sequential contracts on single-owner state (the session actor owns EgressBuffer exclusively). Not covered: the select!/loop structure around the two regions (which arm runs when), DEALER's queue processor task (its in-flight flag is assumed to be written only under the queue lock), inproc path, fibre channels, the 'accepted during connect' part.",
+           "otherwise it is appended at the back of the queue (FIFO); the queue processor task (unit dealerproc: the whole DealerSocketOutgoingProcessor::run, loop and nested select!) keeps 'delivered ++ message in hand ++ queue == everything accepted, in order' "
+           "round the loop and across every await under a rely that is exactly what dealerq proves of the senders (takes from the front, a refused message goes back to the FRONT, the in-flight flag is true exactly while a message is in hand and is written only under the queue lock). End-to-end delivery across tasks, pipes and the kernel is a whole-system property and is not claimed.",
+  "level_note": "Sequential contracts on single-owner state (the session actor owns EgressBuffer exclusively). Not covered: the select!/loop structure around the two regions (which arm runs when), the DEALER processor's wake-up conditions (liveness: that it runs again while the queue is non-empty is shown by the witness only), inproc path, fibre channels, the 'accepted during connect' part.",
   "technique": "contract-based deductive verification (Verus on mechanically extracted real functions; abstract view + representation invariant)",
   "trusted_base": COMMON_TRUSTED + ["vstd VecDeque specs + assume_specification for VecDeque::front/is_empty",
                                      "unit batch: contract of CorePipeManagerX::try_recv_batch_from_core (fibre channel hands over the oldest r <= max messages in order) assumed; Vec::drain + VecDeque::extend by std semantics; "
